@@ -236,6 +236,32 @@ def rule_reentrant_flag(db: ProgramDB) -> List[Instance]:
                         f"expression object is also evaluated in condition position while this evaluation (as an operand) is "
                         f"suspended, the attribute is overwritten and the remaining falsy values are dropped",
                         line=bad[0].lineno if bad else m.lineno))
+    # the same holds for every evaluation generator, not only the mappings: a comparison object or a whole sub-condition can be
+    # placed twice as well (c = contains(x.tags, y.k); and_(c, or_(c, x.a == y.k)))
+    se = db.cls("SymbolicExpression")
+    done = {m.qualname for m in gens}
+    n_gen = 0
+    for c in sorted([se] + se.all_subclasses(), key=lambda k: k.qualname):
+        for m in c.methods.values():
+            if m.cls is not c or not m.is_generator or "yield_when_false" not in m.params or m.qualname in done:
+                continue
+            n_gen += 1
+            reads = [x for x in own_nodes(m.node) if isinstance(x, ast.Attribute) and x.attr == "_yield_when_false_"
+                     and isinstance(x.ctx, ast.Load) and isinstance(x.value, ast.Name) and x.value.id == "self"]
+            # a read is harmless only before the first point at which another evaluation of the same object can run: before any
+            # child evaluation / yield, i.e. outside loops and not after a yield
+            first_susp = min([y.lineno for y in own_nodes(m.node) if isinstance(y, (ast.Yield, ast.YieldFrom))] +
+                             [l.lineno for l in own_nodes(m.node) if isinstance(l, ast.For)] or [10 ** 9])
+            bad = [r for r in reads if r.lineno >= first_susp]
+            ok = not bad
+            out.append(inst("REENTRANT-FLAG", HOLDS if ok else VIOLATION, m, f"{m.short}[false-row request]",
+                            "after its first suspension point the generator reads the request for false rows from its own argument" if ok else
+                            f"the generator reads `self._yield_when_false_` (line {bad[0].lineno}) after a point at which it can be suspended: the same "
+                            f"object evaluated in a second position meanwhile (c used twice: and_(c, or_(c, d)) - the else-if asks c for false rows) "
+                            f"overwrites the attribute, and this evaluation goes on with the other one's request (false rows taken for true ones)",
+                            line=bad[0].lineno if bad else m.lineno))
+    if n_gen < 8:
+        raise AnalysisError(f"only {n_gen} evaluation generators with a yield_when_false parameter found")
     return out
 
 
